@@ -7,6 +7,13 @@ TRUST = ("trusted base: go/types + go/ssa (x/tools v0.50.0), goyacc v0.29.0's LA
          "interface calls that leave the module (Entry, plugins) are opaque")
 
 CHECKS = {
+    "C04": dict(
+        cat="other",
+        text=("Decides the finite table/set agreements that the accepted language rests on, exhaustively over each table: the XPath 3.7 disambiguation set, operator and node-type name sets, the XML-Names and RFC 6020 identifier character classes (interval-set evaluation of the predicates), the three token maps and their inverses, per-production arity constants, that every production consuming an unsupported token reports it, that the parse-error latch is monotone and CreateProgram honours it, that every ERR exit records a lexer error, that the invalid-UTF-8 marker cannot enter a token, empty-input rejection, and conflict-free regenerable grammars. It does not decide language equivalence as a whole."),
+        ref="DESIGN.md §4 C04",
+        technique="table/set extraction from the type-checked AST + interval-set abstract evaluation of character-class predicates + grammar production queries",
+        note="Structural necessary conditions only; whole-language equivalence of lexer+LALR grammar with the supported subset is not decided. " + TRUST,
+    ),
     "C03": dict(
         cat="proof",
         text=("Proof by discharged premises on the current files: the committed parser equals goyacc(xpath.y); the grammar is conflict-free "
@@ -69,7 +76,7 @@ def main():
 
 
 NA = {}
-SOURCE_COMMITS = []
+SOURCE_COMMITS = ["e91d74a fix: reject invalid UTF-8 inside literals and QName local parts", "ad0dbf5 fix: CreateProgram no longer panics when the error position underflows"]
 
 if __name__ == "__main__":
     main()
